@@ -169,4 +169,33 @@ def aliasV (kind : String) (v : Vec) (S : Mat) : Except Err Vec :=
   else if kind = "vv" then vaddAssign v v
   else .error .undef
 
+
+/-! ## Moves: a moved-to object holds the value of its source
+
+`std::swap(A,B)`, `Matrix C(std::move(A))`, `push_back` of a temporary into a `std::vector<Matrix>`
+and returning a by-value parameter all construct an object from an rvalue.  The object is its value,
+so the new object is the source value — shape and entries (the library declares no move
+constructor; the implicit copy is used, and any move constructor must agree with it). -/
+
+/-- what the named objects hold after the operation, in the order the harness reports them -/
+def mMoves (kind : String) (A B : Mat) : Except Err (List Mat) :=
+  if kind = "swap" then .ok [B, A]              -- std::swap(A, B): A, B afterwards
+  else if kind = "move" then .ok [A]            -- Matrix C(std::move(A)): C
+  else if kind = "push" then .ok [A, B]         -- v.push_back(Matrix(A)); v.push_back(Matrix(B)): v[0], v[1]
+  else if kind = "ret" then .ok [A]             -- pass(A) with `Matrix pass(Matrix m) { return m; }`
+  else if kind = "assign" then .ok [A]          -- C = std::move(A) through operator=(Matrix)
+  else if kind = "blocks" then                  -- block constructor on a list of blocks filled by push_back of temporaries
+    match blockCtor [[A, B]] with
+    | .ok C => .ok [C]
+    | .error e => .error e
+  else .error .undef
+
+def vMoves (kind : String) (u v : Vec) : Except Err (List Vec) :=
+  if kind = "swap" then .ok [v, u]
+  else if kind = "move" then .ok [u]
+  else if kind = "push" then .ok [u, v]
+  else if kind = "ret" then .ok [u]
+  else if kind = "assign" then .ok [u]
+  else .error .undef
+
 end Lp.C04.Hist
